@@ -14,6 +14,23 @@ Definition so_encode (Sc : fschema) (fp : bytes) (slow : bool) (v : sval) : resu
   | Unmodelled => Unmodelled
   end.
 
+(* to_single_object on a writer that still accepts `budget` bytes (None: a Vec; Some n: a fixed-size slice of n
+   bytes, or any sink that fails once n bytes went through): write_all of the marker, write_all of the
+   fingerprint, then to_datum on the same writer. A writer that only takes a prefix per `write` call (short writes)
+   is transparent to write_all, so it is the budget None. *)
+Definition so_encode_sink (Sc : fschema) (fp : bytes) (slow : bool) (budget : option N) (v : sval) : result bytes :=
+  match fnode_at Sc 0 with
+  | None => Panic PIndex
+  | Some root =>
+      match (do* _ <- write SO_MARKER; do* _ <- write fp; ser Sc root v) (mkS [] budget [] [] slow) with
+      | (Ok _, st) => Ok (s_out st)
+      | (Err e, _) => Err e
+      | (Panic p, _) => Panic p
+      | (OutOfFuel, _) => OutOfFuel
+      | (Unmodelled, _) => Unmodelled
+      end
+  end.
+
 (* check_header *)
 Definition so_check_header (fp : bytes) (hdr : bytes) : bool :=
   bytes_eqb (firstn 2 hdr) SO_MARKER && bytes_eqb (skipn 2 hdr) fp.
